@@ -1,1 +1,901 @@
-//! (stub)
+//! Generator of `.debug_abbrev` / `.debug_info` / `.debug_types` bytes with a field map and
+//! a model of what was encoded.  Written on top of `asm` only (independent of `gimli::write`).
+//!
+//! # API
+//!
+//! ```text
+//! InfoCfg { le, tables: Vec<AbbrevTable>, units: Vec<UnitCfg>, abbrev_lead }   --build()-->
+//! Built   { debug_abbrev, debug_info, debug_types,            // section bytes
+//!           abbrev_fields, info_fields, types_fields,         // field maps (asm::Field)
+//!           tables: Vec<TableModel>, units: Vec<UnitModel> }  // the model
+//! ```
+//!
+//! * An `AbbrevTable` is a list of `AbbrevDecl {code, tag, children, attrs}` emitted in the
+//!   given order (any code assignment, duplicates allowed - the generator does not judge),
+//!   optionally without the terminating 0.  Several units may share a table.
+//! * A `UnitCfg` names its encoding (`Enc`: byte order, 32/64-bit format, version 2-5,
+//!   address size), its `UnitKind` (all six DWARF 5 unit types; before version 5 `Type` puts
+//!   the unit into `.debug_types`), header extras (signature, type offset, dwo id), the
+//!   abbreviation table it uses and its DIE stream as a flat list of `Item`s exactly as DWARF
+//!   encodes it: `Item::Die {abbrev, vals}` (index into the table's `decls`, one `AttrVal` per
+//!   declared attribute) and `Item::Null`.  Tree shape is implied by children flags and
+//!   nulls; `items_from_depths` builds a stream from a pre-order depth sequence.
+//! * An `AttrVal` is a `Val` (number, signed number, 128-bit number, bytes, nothing, or a
+//!   reference to another item of the unit that is resolved after layout) plus the chain of
+//!   forms named by successive `DW_FORM_indirect` prefixes and optional LEB128 padding.
+//! * The model: `UnitModel` (section, offset, unit_length, header_size, header fields,
+//!   `items`), `ItemModel` (unit-relative offset, length, depth by the Appendix A.3 rule,
+//!   null / code / tag / children, `attrs`), `AttrModel` (name, declared form, final form,
+//!   unit-relative offset, encoded length, `forms::Expect`).
+//!
+//! The generator never looks at gimli.  Layout rules come from `model::forms::layout`; the
+//! encoded length of every attribute is measured on the assembler's buffer.
+//!
+//! Helpers for workloads: `boundary_vals` (boundary payload set of a form), `random_val`,
+//! `forest_depths` (every ordered forest with n nodes), `simple_unit`.
+
+use crate::asm::{sleb_bytes, uleb_bytes, uleb_padded, Asm, Enc, Field, FieldKind};
+use crate::model::forms::{self, Class, Expect, Layout, MVal, Pay, Reject};
+use crate::rt::Rng;
+
+// ------------------------------------------------------------------ configuration
+
+#[derive(Clone, Debug, PartialEq, Eq)]
+pub struct AttrDecl {
+    pub name: u16,
+    pub form: u16,
+    /// emitted (SLEB128) iff `form == DW_FORM_implicit_const`
+    pub implicit_const: i64,
+}
+
+impl AttrDecl {
+    pub fn new(name: u16, form: u16) -> AttrDecl {
+        AttrDecl { name, form, implicit_const: 0 }
+    }
+}
+
+#[derive(Clone, Debug, PartialEq, Eq)]
+pub struct AbbrevDecl {
+    pub code: u64,
+    pub tag: u16,
+    pub children: bool,
+    pub attrs: Vec<AttrDecl>,
+}
+
+#[derive(Clone, Debug)]
+pub struct AbbrevTable {
+    pub decls: Vec<AbbrevDecl>,
+    /// emit the terminating 0 code (a table that ends with the section may omit it)
+    pub terminated: bool,
+}
+
+#[derive(Clone, Debug, PartialEq, Eq)]
+pub enum Val {
+    /// unsigned number (fixed-width forms truncate to their width)
+    U(u64),
+    /// 128-bit number (data16)
+    U128(u128),
+    /// signed number (sdata)
+    S(i64),
+    /// block / exprloc contents or string bytes (without the NUL)
+    Bytes(Vec<u8>),
+    /// nothing to encode (flag_present, implicit_const)
+    Nothing,
+    /// unit-relative offset of item `item` of this unit plus `delta`; `item == items.len()`
+    /// means the end of the unit.  Only for forms whose size does not depend on the value
+    /// (fixed-width forms, or LEB128 forms with `leb_len` set).
+    Ref { item: usize, delta: i64 },
+}
+
+#[derive(Clone, Debug, PartialEq, Eq)]
+pub struct AttrVal {
+    /// forms named by successive DW_FORM_indirect prefixes; the last one is the final form.
+    /// Empty: the declared form is the final form.
+    pub indirect: Vec<u16>,
+    pub val: Val,
+    /// 0 = canonical LEB128; otherwise the exact byte length of the (padded) LEB128 value
+    pub leb_len: usize,
+    /// byte length of each indirect form code (0 = canonical)
+    pub form_leb_len: usize,
+}
+
+impl AttrVal {
+    pub fn new(val: Val) -> AttrVal {
+        AttrVal { indirect: vec![], val, leb_len: 0, form_leb_len: 0 }
+    }
+    pub fn u(v: u64) -> AttrVal {
+        AttrVal::new(Val::U(v))
+    }
+}
+
+#[derive(Clone, Debug)]
+pub enum Item {
+    Null,
+    Die {
+        /// index into the unit's table `decls`
+        abbrev: usize,
+        vals: Vec<AttrVal>,
+        /// 0 = canonical abbreviation code; otherwise padded LEB128 length
+        code_len: usize,
+    },
+}
+
+#[derive(Clone, Copy, Debug, PartialEq, Eq, Hash)]
+pub enum UnitKind {
+    Compile,
+    Type,
+    Partial,
+    Skeleton,
+    SplitCompile,
+    SplitType,
+}
+
+impl UnitKind {
+    pub const ALL: [UnitKind; 6] =
+        [UnitKind::Compile, UnitKind::Type, UnitKind::Partial, UnitKind::Skeleton, UnitKind::SplitCompile, UnitKind::SplitType];
+    /// DW_UT_* code (DWARF 5 table 7.2)
+    pub fn dw_ut(self) -> u8 {
+        match self {
+            UnitKind::Compile => 0x01,
+            UnitKind::Type => 0x02,
+            UnitKind::Partial => 0x03,
+            UnitKind::Skeleton => 0x04,
+            UnitKind::SplitCompile => 0x05,
+            UnitKind::SplitType => 0x06,
+        }
+    }
+    pub fn has_type(self) -> bool {
+        matches!(self, UnitKind::Type | UnitKind::SplitType)
+    }
+    pub fn has_dwo_id(self) -> bool {
+        matches!(self, UnitKind::Skeleton | UnitKind::SplitCompile)
+    }
+    /// Kinds that exist for `version` (before DWARF 5 only compile units and `.debug_types` type units).
+    pub fn valid_for(self, version: u16) -> bool {
+        version >= 5 || matches!(self, UnitKind::Compile | UnitKind::Type)
+    }
+}
+
+#[derive(Clone, Debug)]
+pub enum TypeOffset {
+    Raw(u64),
+    /// unit-relative offset of this item
+    Item(usize),
+}
+
+#[derive(Clone, Debug)]
+pub struct UnitCfg {
+    pub enc: Enc,
+    pub kind: UnitKind,
+    /// index into `InfoCfg::tables`
+    pub table: usize,
+    pub type_signature: u64,
+    pub type_offset: TypeOffset,
+    pub dwo_id: u64,
+    pub items: Vec<Item>,
+}
+
+impl UnitCfg {
+    pub fn new(enc: Enc, kind: UnitKind, table: usize, items: Vec<Item>) -> UnitCfg {
+        UnitCfg { enc, kind, table, type_signature: 0x1122_3344_5566_7788, type_offset: TypeOffset::Raw(0), dwo_id: 0x0102_0304_0506_0708, items }
+    }
+    /// Before DWARF 5, type units live in `.debug_types`.
+    pub fn in_debug_types(&self) -> bool {
+        self.enc.version < 5 && self.kind == UnitKind::Type
+    }
+}
+
+#[derive(Clone, Debug)]
+pub struct InfoCfg {
+    pub le: bool,
+    pub tables: Vec<AbbrevTable>,
+    pub units: Vec<UnitCfg>,
+    /// bytes of filler (0xee.., never parsed) before the first abbreviation table
+    pub abbrev_lead: usize,
+}
+
+// ------------------------------------------------------------------ model
+
+#[derive(Clone, Copy, Debug, PartialEq, Eq)]
+pub enum Sec {
+    Info,
+    Types,
+}
+
+#[derive(Clone, Debug)]
+pub struct TableModel {
+    /// offset of the table in `.debug_abbrev`
+    pub offset: u64,
+    pub len: u64,
+}
+
+#[derive(Clone, Debug)]
+pub struct AttrModel {
+    pub name: u16,
+    /// form declared in the abbreviation
+    pub form: u16,
+    /// form after following DW_FORM_indirect prefixes
+    pub final_form: u16,
+    pub implicit_const: i64,
+    /// unit-relative offset of the first byte of the attribute (incl. indirect form codes)
+    pub offset: u64,
+    pub len: u64,
+    pub expect: Expect,
+}
+
+#[derive(Clone, Debug)]
+pub struct ItemModel {
+    /// unit-relative offset
+    pub offset: u64,
+    pub len: u64,
+    /// depth relative to the first item of the unit (Appendix A.3): a null is reported at the
+    /// current depth and lowers it by one; an entry with children raises it by one
+    pub depth: i64,
+    pub null: bool,
+    pub code: u64,
+    pub tag: u16,
+    pub children: bool,
+    /// index into the table's `decls` (usize::MAX for nulls)
+    pub abbrev: usize,
+    pub attrs: Vec<AttrModel>,
+}
+
+#[derive(Clone, Debug)]
+pub struct UnitModel {
+    pub sec: Sec,
+    /// offset of the unit in its section
+    pub offset: u64,
+    /// value of the unit_length field
+    pub unit_length: u64,
+    /// bytes from the start of the unit to its first DIE
+    pub header_size: u64,
+    /// unit-relative offset one past the last byte (initial length size + unit_length)
+    pub end: u64,
+    pub enc: Enc,
+    pub kind: UnitKind,
+    pub table: usize,
+    pub abbrev_offset: u64,
+    pub type_signature: u64,
+    pub type_offset: u64,
+    pub dwo_id: u64,
+    pub items: Vec<ItemModel>,
+    /// an attribute that must be rejected was encoded: items after it are not meaningful
+    pub poisoned: bool,
+}
+
+#[derive(Clone, Debug)]
+pub struct Built {
+    pub le: bool,
+    pub debug_abbrev: Vec<u8>,
+    pub debug_info: Vec<u8>,
+    pub debug_types: Vec<u8>,
+    pub abbrev_fields: Vec<Field>,
+    pub info_fields: Vec<Field>,
+    pub types_fields: Vec<Field>,
+    pub tables: Vec<TableModel>,
+    pub units: Vec<UnitModel>,
+}
+
+// ------------------------------------------------------------------ encoding helpers
+
+/// SLEB128 padded to exactly `n` bytes (n >= canonical length), still a valid encoding.
+pub fn sleb_padded(v: i64, n: usize) -> Vec<u8> {
+    let mut out = sleb_bytes(v);
+    if out.len() < n {
+        let fill: u8 = if v < 0 { 0x7f } else { 0x00 };
+        let last = out.len() - 1;
+        out[last] |= 0x80;
+        while out.len() < n - 1 {
+            out.push(fill | 0x80);
+        }
+        out.push(fill);
+    }
+    out
+}
+
+fn mask(n: usize) -> u64 {
+    if n >= 8 {
+        u64::MAX
+    } else {
+        (1u64 << (8 * n as u32)) - 1
+    }
+}
+
+fn emit_uleb(a: &mut Asm, v: u64, len: usize) {
+    if len == 0 {
+        a.uleb(v);
+    } else {
+        let b = uleb_padded(v, len);
+        a.bytes(&b);
+    }
+}
+
+/// A patch to apply once item offsets are known.
+struct Patch {
+    /// absolute offset in the section buffer
+    at: usize,
+    kind: PatchKind,
+    item: usize,
+    delta: i64,
+    /// (unit index, item index, attr index) of the attribute model to update
+    who: (usize, usize),
+}
+
+enum PatchKind {
+    Fixed(usize),
+    Uleb(usize),
+}
+
+/// Encode one attribute value of final form `form`; returns the expected decoded value.
+/// `unit_base` is the absolute offset of the unit in `a`.
+fn encode_final(
+    a: &mut Asm,
+    enc: Enc,
+    name: u16,
+    form: u16,
+    decl: &AttrDecl,
+    via_indirect: bool,
+    v: &AttrVal,
+    patches: &mut Vec<Patch>,
+    who: (usize, usize),
+) -> Expect {
+    let Some(lay) = forms::layout(form, enc) else {
+        return Expect::Reject(Reject::UnknownForm);
+    };
+    let cls = forms::class(form, name, enc);
+    let mk = |pay: Pay| Expect::Val(MVal { class: cls.unwrap_or(Class::Udata), pay });
+    let as_u = |val: &Val| -> u64 {
+        match val {
+            Val::U(x) => *x,
+            Val::S(x) => *x as u64,
+            Val::U128(x) => *x as u64,
+            Val::Bytes(b) => b.len() as u64,
+            _ => 0,
+        }
+    };
+    match lay {
+        Layout::Fixed(n) => {
+            if let Val::Ref { item, delta } = &v.val {
+                let at = a.len();
+                a.f_uint(FieldKind::Offset, "attr.ref", n, 0);
+                patches.push(Patch { at, kind: PatchKind::Fixed(n), item: *item, delta: *delta, who });
+                return mk(Pay::Int(0));
+            }
+            if n == 16 {
+                let x = match &v.val {
+                    Val::U128(x) => *x,
+                    other => as_u(other) as u128,
+                };
+                let off = a.len();
+                a.u128(x);
+                a.fields.push(Field { off, len: 16, kind: FieldKind::Data, name: "attr.data16" });
+                return mk(Pay::Big(x));
+            }
+            let x = as_u(&v.val) & mask(n);
+            let kind = match cls {
+                Some(Class::Addr) => FieldKind::Address,
+                Some(Class::Data1 | Class::Data2 | Class::Data4 | Class::Data8 | Class::Flag) => FieldKind::Data,
+                Some(Class::StrOffsetsIndex | Class::AddrIndex) => FieldKind::Index,
+                _ => FieldKind::Offset,
+            };
+            if n > 0 {
+                a.f_uint(kind, "attr.fixed", n, x);
+            }
+            if cls == Some(Class::Flag) {
+                // flag_present has no bytes and is true; flag is true iff the byte is non-zero
+                return mk(Pay::Flag(if n == 0 { true } else { x != 0 }));
+            }
+            mk(Pay::Int(x as i128))
+        }
+        Layout::Uleb => {
+            if let Val::Ref { item, delta } = &v.val {
+                let len = if v.leb_len == 0 { 5 } else { v.leb_len };
+                let at = a.len();
+                let b = uleb_padded(0, len);
+                a.f_bytes(FieldKind::Uleb, "attr.ref_uleb", &b);
+                patches.push(Patch { at, kind: PatchKind::Uleb(len), item: *item, delta: *delta, who });
+                return mk(Pay::Int(0));
+            }
+            let x = as_u(&v.val);
+            let b = if v.leb_len == 0 { uleb_bytes(x) } else { uleb_padded(x, v.leb_len) };
+            a.f_bytes(FieldKind::Uleb, "attr.uleb", &b);
+            mk(Pay::Int(x as i128))
+        }
+        Layout::Sleb => {
+            let x = match &v.val {
+                Val::S(x) => *x,
+                other => as_u(other) as i64,
+            };
+            let b = if v.leb_len == 0 { sleb_bytes(x) } else { sleb_padded(x, v.leb_len) };
+            a.f_bytes(FieldKind::Sleb, "attr.sleb", &b);
+            mk(Pay::Int(x as i128))
+        }
+        Layout::BlockN(n) => {
+            let empty = vec![];
+            let bytes = match &v.val {
+                Val::Bytes(b) => b,
+                _ => &empty,
+            };
+            let len = (bytes.len() as u64 & mask(n)) as usize;
+            a.f_uint(FieldKind::Length, "attr.block_len", n, len as u64);
+            a.bytes(&bytes[..len]);
+            mk(Pay::Bytes(bytes[..len].to_vec()))
+        }
+        Layout::BlockUleb => {
+            let empty = vec![];
+            let bytes = match &v.val {
+                Val::Bytes(b) => b,
+                _ => &empty,
+            };
+            let lb = if v.leb_len == 0 { uleb_bytes(bytes.len() as u64) } else { uleb_padded(bytes.len() as u64, v.leb_len) };
+            a.f_bytes(FieldKind::Length, "attr.block_len", &lb);
+            a.bytes(bytes);
+            mk(Pay::Bytes(bytes.clone()))
+        }
+        Layout::CStr => {
+            let empty = vec![];
+            let bytes = match &v.val {
+                Val::Bytes(b) => b,
+                _ => &empty,
+            };
+            // a string ends at its first NUL
+            let cut = bytes.iter().position(|&c| c == 0).unwrap_or(bytes.len());
+            let off = a.len();
+            a.cstr(&bytes[..cut]);
+            a.fields.push(Field { off, len: cut + 1, kind: FieldKind::Str, name: "attr.string" });
+            mk(Pay::Bytes(bytes[..cut].to_vec()))
+        }
+        Layout::ImplicitConst => {
+            if via_indirect {
+                Expect::Reject(Reject::IndirectImplicitConst)
+            } else {
+                mk(Pay::Int(decl.implicit_const as i128))
+            }
+        }
+        Layout::Indirect => {
+            // an indirect chain that ends in DW_FORM_indirect cannot be encoded; callers never ask
+            Expect::Reject(Reject::UnknownForm)
+        }
+    }
+}
+
+// ------------------------------------------------------------------ build
+
+impl InfoCfg {
+    pub fn build(&self) -> Built {
+        // ---- .debug_abbrev
+        let mut ab = Asm::new(self.le);
+        for _ in 0..self.abbrev_lead {
+            ab.u8(0xee);
+        }
+        let mut tables = vec![];
+        for t in &self.tables {
+            let start = ab.len();
+            for d in &t.decls {
+                ab.f_uleb(FieldKind::Other, "abbrev.code", d.code);
+                ab.f_uleb(FieldKind::Other, "abbrev.tag", d.tag as u64);
+                ab.f_uint(FieldKind::Other, "abbrev.children", 1, d.children as u64);
+                for at in &d.attrs {
+                    ab.f_uleb(FieldKind::Other, "abbrev.attr_name", at.name as u64);
+                    ab.f_uleb(FieldKind::Form, "abbrev.attr_form", at.form as u64);
+                    if at.form == forms::F_IMPLICIT_CONST {
+                        ab.f_sleb(FieldKind::Sleb, "abbrev.implicit_const", at.implicit_const);
+                    }
+                }
+                ab.u8(0).u8(0);
+            }
+            if t.terminated {
+                ab.f_uint(FieldKind::Other, "abbrev.end", 1, 0);
+            }
+            tables.push(TableModel { offset: start as u64, len: (ab.len() - start) as u64 });
+        }
+
+        // ---- units
+        let mut info = Asm::new(self.le);
+        let mut types = Asm::new(self.le);
+        let mut units: Vec<UnitModel> = vec![];
+        for (ui, u) in self.units.iter().enumerate() {
+            let enc = u.enc;
+            // kinds that do not exist before DWARF 5 degrade to a plain compile unit
+            let kind = if u.kind.valid_for(enc.version) { u.kind } else { UnitKind::Compile };
+            let in_types = enc.version < 5 && kind == UnitKind::Type;
+            let a: &mut Asm = if in_types { &mut types } else { &mut info };
+            let base = a.len();
+            let mark = a.begin_length(enc.fmt64);
+            a.f_uint(FieldKind::Version, "unit.version", 2, enc.version as u64);
+            let abbrev_offset = tables.get(u.table).map(|t| t.offset).unwrap_or(0);
+            let mut type_off_at = None;
+            if enc.version >= 5 {
+                a.f_uint(FieldKind::Other, "unit.unit_type", 1, kind.dw_ut() as u64);
+                a.f_uint(FieldKind::Size, "unit.address_size", 1, enc.addr as u64);
+                a.f_uint(FieldKind::Offset, "unit.debug_abbrev_offset", enc.word() as usize, abbrev_offset);
+            } else {
+                a.f_uint(FieldKind::Offset, "unit.debug_abbrev_offset", enc.word() as usize, abbrev_offset);
+                a.f_uint(FieldKind::Size, "unit.address_size", 1, enc.addr as u64);
+            }
+            if kind.has_type() {
+                a.f_uint(FieldKind::Data, "unit.type_signature", 8, u.type_signature);
+                type_off_at = Some(a.len());
+                a.f_uint(FieldKind::Offset, "unit.type_offset", enc.word() as usize, 0);
+            } else if kind.has_dwo_id() && enc.version >= 5 {
+                a.f_uint(FieldKind::Data, "unit.dwo_id", 8, u.dwo_id);
+            }
+            let header_size = (a.len() - base) as u64;
+
+            // DIE stream
+            let decls: &[AbbrevDecl] = self.tables.get(u.table).map(|t| &t.decls[..]).unwrap_or(&[]);
+            let mut items: Vec<ItemModel> = vec![];
+            let mut patches: Vec<Patch> = vec![];
+            let mut depth: i64 = 0;
+            let mut poisoned = false;
+            for (ii, it) in u.items.iter().enumerate() {
+                let off = a.len();
+                match it {
+                    Item::Null => {
+                        a.f_uint(FieldKind::Other, "die.null", 1, 0);
+                        items.push(ItemModel {
+                            offset: (off - base) as u64,
+                            len: 1,
+                            depth,
+                            null: true,
+                            code: 0,
+                            tag: 0,
+                            children: false,
+                            abbrev: usize::MAX,
+                            attrs: vec![],
+                        });
+                        depth -= 1;
+                    }
+                    Item::Die { abbrev, vals, code_len } => {
+                        let d = &decls[*abbrev];
+                        let cb = if *code_len == 0 { uleb_bytes(d.code) } else { uleb_padded(d.code, *code_len) };
+                        a.f_bytes(FieldKind::Uleb, "die.code", &cb);
+                        let mut attrs = vec![];
+                        for (k, ad) in d.attrs.iter().enumerate() {
+                            let dflt = AttrVal::u(0);
+                            let v = vals.get(k).unwrap_or(&dflt);
+                            let aoff = a.len();
+                            // follow the declared form through the indirect chain
+                            let mut form = ad.form;
+                            let mut via_indirect = false;
+                            let mut chain = v.indirect.iter();
+                            let mut expect = None;
+                            while form == forms::F_INDIRECT {
+                                let Some(&next) = chain.next() else {
+                                    // declared indirect but no chain given: encode data1
+                                    let b = uleb_bytes(forms::F_DATA1 as u64);
+                                    a.f_bytes(FieldKind::Form, "attr.indirect_form", &b);
+                                    form = forms::F_DATA1;
+                                    via_indirect = true;
+                                    break;
+                                };
+                                let b = if v.form_leb_len == 0 { uleb_bytes(next as u64) } else { uleb_padded(next as u64, v.form_leb_len) };
+                                a.f_bytes(FieldKind::Form, "attr.indirect_form", &b);
+                                form = next;
+                                via_indirect = true;
+                            }
+                            if expect.is_none() {
+                                let who = (items.len(), k);
+                                expect = Some(encode_final(a, enc, ad.name, form, ad, via_indirect, v, &mut patches, who));
+                            }
+                            let expect = expect.unwrap();
+                            if matches!(expect, Expect::Reject(_)) {
+                                poisoned = true;
+                            }
+                            attrs.push(AttrModel {
+                                name: ad.name,
+                                form: ad.form,
+                                final_form: form,
+                                implicit_const: ad.implicit_const,
+                                offset: (aoff - base) as u64,
+                                len: (a.len() - aoff) as u64,
+                                expect,
+                            });
+                        }
+                        items.push(ItemModel {
+                            offset: (off - base) as u64,
+                            len: (a.len() - off) as u64,
+                            depth,
+                            null: false,
+                            code: d.code,
+                            tag: d.tag,
+                            children: d.children,
+                            abbrev: *abbrev,
+                            attrs,
+                        });
+                        if d.children {
+                            depth += 1;
+                        }
+                    }
+                }
+                let _ = ii;
+            }
+            a.end_length(mark);
+            let end = (a.len() - base) as u64;
+            let isz = if enc.fmt64 { 12 } else { 4 };
+            let unit_length = end - isz;
+
+            // resolve references
+            let offs: Vec<u64> = items.iter().map(|m| m.offset).collect();
+            let item_off = |i: usize| -> u64 { offs.get(i).copied().unwrap_or(end) };
+            for p in &patches {
+                let target = (item_off(p.item) as i64).wrapping_add(p.delta) as u64;
+                let shown = match p.kind {
+                    PatchKind::Fixed(n) => {
+                        a.patch_uint(p.at, n, target & mask(n));
+                        target & mask(n)
+                    }
+                    PatchKind::Uleb(len) => {
+                        // value must fit 7*len bits
+                        let bits = 7 * len as u32;
+                        let t = if bits >= 64 { target } else { target & ((1u64 << bits) - 1) };
+                        let b = uleb_padded(t, len);
+                        a.buf[p.at..p.at + len].copy_from_slice(&b[..len]);
+                        t
+                    }
+                };
+                if let Some(am) = items.get_mut(p.who.0).and_then(|m| m.attrs.get_mut(p.who.1)) {
+                    if let Expect::Val(mv) = &mut am.expect {
+                        mv.pay = Pay::Int(shown as i128);
+                    }
+                }
+            }
+            let type_offset = match &u.type_offset {
+                TypeOffset::Raw(x) => *x,
+                TypeOffset::Item(i) => item_off(*i),
+            };
+            if let Some(at) = type_off_at {
+                a.patch_uint(at, enc.word() as usize, type_offset);
+            }
+            let type_offset = if enc.fmt64 { type_offset } else { type_offset & 0xffff_ffff };
+            units.push(UnitModel {
+                sec: if in_types { Sec::Types } else { Sec::Info },
+                offset: base as u64,
+                unit_length,
+                header_size,
+                end,
+                enc,
+                kind,
+                table: u.table,
+                abbrev_offset,
+                type_signature: u.type_signature,
+                type_offset,
+                dwo_id: u.dwo_id,
+                items,
+                poisoned,
+            });
+            let _ = ui;
+        }
+        Built {
+            le: self.le,
+            debug_abbrev: ab.buf,
+            debug_info: info.buf,
+            debug_types: types.buf,
+            abbrev_fields: ab.fields,
+            info_fields: info.fields,
+            types_fields: types.fields,
+            tables,
+            units,
+        }
+    }
+}
+
+// ------------------------------------------------------------------ workload helpers
+
+/// Deterministic filler bytes (never 0, so they can be string contents).
+pub fn filler(n: usize, salt: u64) -> Vec<u8> {
+    (0..n).map(|i| (((i as u64).wrapping_mul(31).wrapping_add(salt.wrapping_mul(7))) % 251 + 1) as u8).collect()
+}
+
+/// Boundary payload set of (final) form `form`: 0, 1, max, sign boundaries, 1/2/9/10-byte
+/// LEB128 (canonical and padded), empty/1/127/128/255/256/65535/70 000-byte blocks and strings.
+pub fn boundary_vals(form: u16, enc: Enc) -> Vec<AttrVal> {
+    let mut out = vec![];
+    let Some(lay) = forms::layout(form, enc) else {
+        return vec![AttrVal::u(0)];
+    };
+    match lay {
+        Layout::Fixed(0) | Layout::ImplicitConst => out.push(AttrVal::new(Val::Nothing)),
+        Layout::Fixed(16) => {
+            for x in [0u128, 1, u128::MAX, 1u128 << 127, (1u128 << 127) - 1, 0x0102_0304_0506_0708_090a_0b0c_0d0e_0f10, 1u128 << 64] {
+                out.push(AttrVal::new(Val::U128(x)));
+            }
+        }
+        Layout::Fixed(n) => {
+            let m = mask(n);
+            let sign = 1u64 << (8 * n as u32 - 1);
+            for x in [0, 1, 2, 0x7f, 0x80, 0xff, m, m - 1, sign, sign - 1, 0x0102_0304_0506_0708 & m, 0xf1f2_f3f4_f5f6_f7f8 & m] {
+                let v = AttrVal::u(x & m);
+                if !out.contains(&v) {
+                    out.push(v);
+                }
+            }
+        }
+        Layout::Uleb => {
+            for x in [0u64, 1, 0x7f, 0x80, 0x3fff, 0x4000, 0xffff_ffff, 1 << 32, (1 << 56) - 1, 1 << 56, i64::MAX as u64, 1 << 63, u64::MAX] {
+                out.push(AttrVal::u(x));
+            }
+            for (x, l) in [(0u64, 2usize), (1, 9), (1, 10), (0x7f, 10), (0x80, 3), (i64::MAX as u64, 10), (0, 10)] {
+                out.push(AttrVal { leb_len: l, ..AttrVal::u(x) });
+            }
+        }
+        Layout::Sleb => {
+            for x in [0i64, 1, -1, 63, 64, -64, -65, 8191, 8192, -8192, -8193, i32::MAX as i64, i32::MIN as i64, (1 << 62) - 1, 1 << 62, -(1 << 62) - 1, i64::MAX, i64::MIN] {
+                out.push(AttrVal::new(Val::S(x)));
+            }
+            for (x, l) in [(0i64, 2usize), (-1, 2), (1, 9), (-2, 10), (5, 10), (i64::MIN, 10), (-64, 3)] {
+                out.push(AttrVal { leb_len: l, ..AttrVal::new(Val::S(x)) });
+            }
+        }
+        Layout::BlockN(n) => {
+            for len in [0usize, 1, 2, 127, 128, 255, 256, 65535, 65536, 70_000] {
+                if (len as u64) <= mask(n) {
+                    out.push(AttrVal::new(Val::Bytes(block_bytes(len))));
+                }
+            }
+        }
+        Layout::BlockUleb => {
+            for len in [0usize, 1, 127, 128, 16383, 16384, 70_000] {
+                out.push(AttrVal::new(Val::Bytes(block_bytes(len))));
+            }
+            out.push(AttrVal { leb_len: 2, ..AttrVal::new(Val::Bytes(block_bytes(3))) });
+            out.push(AttrVal { leb_len: 10, ..AttrVal::new(Val::Bytes(block_bytes(0))) });
+        }
+        Layout::CStr => {
+            for len in [0usize, 1, 2, 127, 128, 70_000] {
+                out.push(AttrVal::new(Val::Bytes(filler(len, len as u64))));
+            }
+        }
+        Layout::Indirect => out.push(AttrVal { indirect: vec![forms::F_DATA1], ..AttrVal::u(0x5a) }),
+    }
+    out
+}
+
+/// Block contents including NULs and 0x80.. bytes (blocks are opaque).
+pub fn block_bytes(n: usize) -> Vec<u8> {
+    (0..n).map(|i| (i as u8).wrapping_mul(37).wrapping_add(if i % 5 == 0 { 0 } else { 0x80 })).collect()
+}
+
+/// A random payload for (final) form `form` (boundary-biased numbers, short blocks/strings).
+pub fn random_val(r: &mut Rng, form: u16, enc: Enc) -> AttrVal {
+    let Some(lay) = forms::layout(form, enc) else {
+        return AttrVal::u(r.below(256));
+    };
+    match lay {
+        Layout::Fixed(0) | Layout::ImplicitConst => AttrVal::new(Val::Nothing),
+        Layout::Fixed(16) => AttrVal::new(Val::U128(((r.boundary() as u128) << 64) | r.boundary() as u128)),
+        Layout::Fixed(n) => AttrVal::u(r.boundary() & mask(n)),
+        Layout::Uleb => {
+            let x = r.boundary();
+            let mut v = AttrVal::u(x);
+            if r.chance(1, 5) {
+                let c = uleb_bytes(x).len();
+                v.leb_len = (c + r.usize(3)).min(10);
+                if v.leb_len == c {
+                    v.leb_len = 0;
+                }
+            }
+            v
+        }
+        Layout::Sleb => {
+            let x = r.boundary() as i64;
+            let mut v = AttrVal::new(Val::S(x));
+            if r.chance(1, 5) {
+                let c = sleb_bytes(x).len();
+                v.leb_len = (c + r.usize(3)).min(10);
+                if v.leb_len == c {
+                    v.leb_len = 0;
+                }
+            }
+            v
+        }
+        Layout::BlockN(n) => {
+            let max = mask(n).min(300);
+            let len = r.small(max) as usize;
+            AttrVal::new(Val::Bytes(r.bytes(len)))
+        }
+        Layout::BlockUleb => {
+            let len = r.small(300) as usize;
+            AttrVal::new(Val::Bytes(r.bytes(len)))
+        }
+        Layout::CStr => {
+            let len = r.small(200) as usize;
+            AttrVal::new(Val::Bytes(r.bytes(len).into_iter().map(|b| if b == 0 { 1 } else { b }).collect()))
+        }
+        Layout::Indirect => {
+            // random chain of depth 1..=3 ending in a concrete form
+            let depth = 1 + r.usize(3);
+            let mut chain = vec![forms::F_INDIRECT; depth - 1];
+            let fin = loop {
+                let f = forms::FORMS[r.usize(forms::FORMS.len())].0;
+                if f != forms::F_INDIRECT && f != forms::F_IMPLICIT_CONST {
+                    break f;
+                }
+            };
+            chain.push(fin);
+            let inner = random_val(r, fin, enc);
+            AttrVal { indirect: chain, form_leb_len: if r.chance(1, 6) { 3 } else { 0 }, ..inner }
+        }
+    }
+}
+
+/// Every ordered forest with `n` nodes as a pre-order depth sequence (d0 = 0,
+/// 0 <= d[i+1] <= d[i] + 1).  Catalan(n) sequences: 1, 2, 5, 14, 42, 132, 429 for n = 1..7.
+pub fn forest_depths(n: usize) -> Vec<Vec<u8>> {
+    let mut out = vec![];
+    if n == 0 {
+        return vec![vec![]];
+    }
+    let mut cur = vec![0u8];
+    // iterative DFS over sequences
+    let mut stack: Vec<(Vec<u8>,)> = vec![(cur.clone(),)];
+    while let Some((seq,)) = stack.pop() {
+        if seq.len() == n {
+            out.push(seq);
+            continue;
+        }
+        let last = *seq.last().unwrap();
+        for d in (0..=last + 1).rev() {
+            let mut s = seq.clone();
+            s.push(d);
+            stack.push((s,));
+        }
+    }
+    cur.clear();
+    out
+}
+
+/// Build a DIE stream from a pre-order depth sequence.  `abbrev_for(i, has_children)` picks
+/// the abbreviation (index into decls) of node i; its `children` flag must equal
+/// `has_children`.  `leaf_children[i]` marks a leaf that is nevertheless encoded with
+/// the children flag (an empty child list: the node is immediately followed by a null).
+/// `vals_for(i)` provides the attribute values.  Returns the items and, for every node, the
+/// index of its item.  The stream closes every open child list with a null; top-level
+/// entries are not followed by a null.
+pub fn items_from_depths(
+    depths: &[u8],
+    leaf_children: &[bool],
+    mut abbrev_for: impl FnMut(usize, bool) -> usize,
+    mut vals_for: impl FnMut(usize) -> Vec<AttrVal>,
+) -> (Vec<Item>, Vec<usize>) {
+    let mut items = vec![];
+    let mut node_item = vec![];
+    let n = depths.len();
+    // open[k] = true if the list at depth k+1 is open (its parent had the children flag)
+    let mut cur_depth: i64 = 0;
+    for i in 0..n {
+        let d = depths[i] as i64;
+        // close lists until we are at depth d
+        while cur_depth > d {
+            items.push(Item::Null);
+            cur_depth -= 1;
+        }
+        let has_child = i + 1 < n && depths[i + 1] as i64 == d + 1;
+        let flag = has_child || leaf_children.get(i).copied().unwrap_or(false);
+        node_item.push(items.len());
+        items.push(Item::Die { abbrev: abbrev_for(i, flag), vals: vals_for(i), code_len: 0 });
+        if flag {
+            cur_depth = d + 1;
+            if !has_child {
+                // empty child list
+                items.push(Item::Null);
+                cur_depth = d;
+            }
+        }
+    }
+    while cur_depth > 0 {
+        items.push(Item::Null);
+        cur_depth -= 1;
+    }
+    (items, node_item)
+}
+
+/// One unit with one childless DIE carrying the given attributes (C03 building block).
+pub fn simple_unit(enc: Enc, kind: UnitKind, decls: Vec<AttrDecl>, vals: Vec<AttrVal>) -> InfoCfg {
+    InfoCfg {
+        le: enc.le,
+        tables: vec![AbbrevTable { decls: vec![AbbrevDecl { code: 1, tag: 0x11, children: false, attrs: decls }], terminated: true }],
+        units: vec![UnitCfg::new(enc, kind, 0, vec![Item::Die { abbrev: 0, vals, code_len: 0 }])],
+        abbrev_lead: 0,
+    }
+}
